@@ -105,9 +105,9 @@ def report_violation(prop, seed, v, findings, minimise=True):
         return ('known', "KNOWN-FINDING: property=%s %s" % (prop, f.get('what', key)))
     out("violation: property=%s invariant=%s run=%d seed=%d ops=%d (minimised from %d, %d executions)" %
         (prop, v2['invariant'], run, seed, len(best['program']['ops']), n_ops, execs))
-    out("  op=%s" % json.dumps(v2.get('op')))
-    out("  observed=%s" % json.dumps(v2.get('observed')))
-    out("  expected=%s" % json.dumps(v2.get('expected')))
+    out("  op=%s" % json.dumps(v2.get('op'))[:600])
+    out("  observed=%s" % json.dumps(v2.get('observed'))[:600])
+    out("  expected=%s" % json.dumps(v2.get('expected'))[:600])
     return ('violation', "VIOLATION property=%s replay=%s" % (prop, path))
 
 
